@@ -22,6 +22,10 @@ SHARDS = {'thorough': 16}
 POOL = ['/', '/a', '/a/b', '/a/bc', '/a/b/c', '/ab', '/a/b/c/d']
 OUTSIDE = ['/zz', '/a/b/x', '/a/bcd']
 UNKNOWN_OBJECT = 'org.freedesktop.DBus.Error.UnknownObject'
+OTHER_CALLS = [('org.freedesktop.DBus.Peer', 'GetMachineId'), ('org.freedesktop.DBus.Properties', 'GetAll'),
+               ('org.freedesktop.DBus.Introspectable', 'Nope'), ('org.freedesktop.DBus.ObjectManager', 'Nope'),
+               ('org.verif.c16.Nowhere', 'Ping'), (None, 'Ping'), ('org.freedesktop.DBus.Properties', 'Nope'),
+               ('org.verif.c16.B', 'Ping')]
 
 IFACE_A = I.DBusInterface('org.verif.c16.A', I.Method('Ping', returns='s'), I.Property('Name', 's'),
                           I.Property('Secret', 's', readable=False, writeable=True), noRegister=True)
@@ -121,6 +125,19 @@ def check_state(ctx, w_, hist, case):
                 ctx.report('unexported-answered', 'call to unexported %s answered %r %r instead of UnknownObject' % (
                     path, m.fields.get('error_name'), m.body), base, case)
                 return False
+        # --- "a call to a path not currently exported": whatever interface and member the call names (the standard
+        #     interfaces included; only Peer.Ping, which the connection answers for itself, and Introspect, which has its
+        #     own rule below, are left out)
+        if path not in exported:
+            probe_i = (len(hist) + len(path)) % len(OTHER_CALLS)
+            for iface_, member_ in (OTHER_CALLS[probe_i], OTHER_CALLS[(probe_i + 3) % len(OTHER_CALLS)]):
+                serial, msgs = world.call(path, member_, iface_)
+                ctx.count('queries')
+                rep = [m for m in msgs if m.fields.get('reply_serial') == serial]
+                if len(rep) != 1 or rep[0].mtype != RM.ERROR or rep[0].fields.get('error_name') != UNKNOWN_OBJECT:
+                    ctx.report('unexported-answered', 'call %s.%s to unexported %s answered %r instead of UnknownObject' % (
+                        iface_, member_, path, [(m.fields.get('error_name'), m.body) for m in rep]), base, case)
+                    return False
         # --- Introspect
         serial, msgs = world.call(path, 'Introspect', 'org.freedesktop.DBus.Introspectable')
         ctx.count('queries')
